@@ -21,8 +21,8 @@ TRUSTED = {
         "str and String are ordered alike (the analogue for &str of vstd's axioms for deref keys)",
     r"axiom_hash_inj": "A3: BLAKE3 is collision free (cryptographic assumption the content addressing of the real code rests on)",
     r"axiom_blob_rel_inj": "A4: the path fragments/<name[..2]>/<name>.frag determines <name>",
-    r"impl Clone for FileEntry|stands for `#\[derive\(Clone\)\]`": "E3': #[derive(Clone)] replaced by a trusted spec: the clone has the same view (field-wise copy)",
-    r"impl Default for Manifest|stands for `#\[derive\(Default\)\]`": "E3': #[derive(Default)] on Manifest replaced by a trusted spec: schema 0, empty key, no files",
+    r"fn clone\(&self\)": "E3': #[derive(Clone)] on FileEntry / Manifest replaced by a trusted spec: the clone has the same view (field-wise copy)",
+    r"fn default\(\)": "E3': #[derive(Default)] on Manifest replaced by a trusted spec: schema 0, empty key, no files",
     r"\[std::mem::take\]": "O5: mem::take returns the old value and leaves T::default()",
     r"\[u32::to_le_bytes\]": "O5: u32::to_le_bytes = the four bytes, least significant first",
     r"\[u32::from_le_bytes\]": "O5: u32::from_le_bytes = b0 | b1<<8 | b2<<16 | b3<<24",
@@ -120,7 +120,7 @@ def build(ctx, res):
         fs_same_files(*final(fs), *old(fs)), final(fs).last_blob_read == old(fs).last_blob_read,
         final(fs).last_manifest_read is Some ==> final(fs).last_manifest_read == old(fs).manifest,
         r is Some ==> {
-            &&& sv(r.unwrap()).next == Map::<Seq<char>, EntryV>::empty()
+            &&& sv(r.unwrap()).next == IMap::<Seq<char>, EntryV>::empty()
             &&& sv(r.unwrap()).saved.schema == SCHEMA_VERSION
             &&& sv(r.unwrap()).saved.key == global_key@
             &&& (sv(r.unwrap()).saved.files, sv(r.unwrap()).current) == open_spec(final(fs).last_manifest_read, global_key@)
@@ -139,16 +139,14 @@ def build(ctx, res):
     f.at_start("    proof { lemma_fv_contains(self.manifest.files@, key_of(src@)); }")
     add(f, "Store::entry")
 
-    READ_POST = """        fs_same_files(*final(fs), *old(fs)), final(fs).last_manifest_read == old(fs).last_manifest_read,
-        obv(r) == (match final(fs).last_blob_read { Some(d) => blob_decode(d), None => None }),
-        final(fs).last_blob_read is Some ==> old(fs).blobs.contains_key(%s) && old(fs).blobs[%s] == final(fs).last_blob_read.unwrap(),"""
+    READ_POST = "        read_post(*old(fs), *final(fs), r, %s),"
 
     f = s.item("fn", "read_blob", impl="Store")
     f.name_return("r")
     f.replace("rel: &str)", "rel: &str, %s)" % FS, rule="G1 ghost disk parameter")
     f.replace("fs::read(self.root.join(rel)).ok()?", "vp_fs_read(&self.root, rel, Tracked(fs))?", rule="O14")
     f.replace("data.strip_prefix(BLOB_MAGIC.as_slice())?", "vp_strip_prefix(data.as_slice(), BLOB_MAGIC.as_slice())?", rule="O12")
-    f.spec("    ensures\n" + READ_POST % ("rel@", "rel@"))
+    f.spec("    ensures\n" + READ_POST % "rel@")
     add(f, "Store::read_blob")
 
     f = s.item("fn", "write_blob", impl="Store")
@@ -178,16 +176,16 @@ def build(ctx, res):
     f.name_return("r")
     f.replace("entry: &FileEntry)", "entry: &FileEntry, %s)" % FS, rule="G1 ghost disk parameter")
     f.replace("self.read_blob(entry.fragment.as_ref()?)", "self.read_blob(entry.fragment.as_ref()?, Tracked(fs))", rule="G1")
-    f.spec("    ensures\n        entry.fragment is None ==> r is None && *final(fs) == *old(fs),\n        entry.fragment is Some ==> {\n"
-           + READ_POST % ("entry.fragment.unwrap()@", "entry.fragment.unwrap()@") + "\n        },")
+    f.spec("    ensures\n        entry.fragment is None ==> r is None && *final(fs) == *old(fs),\n"
+           "        entry.fragment is Some ==> read_post(*old(fs), *final(fs), r, entry.fragment.unwrap()@),")
     add(f, "Store::load")
 
     f = s.item("fn", "load_diagnostics", impl="Store")
     f.name_return("r")
     f.replace("entry: &FileEntry)", "entry: &FileEntry, %s)" % FS, rule="G1 ghost disk parameter")
     f.replace("self.read_blob(entry.diagnostics.as_ref()?)", "self.read_blob(entry.diagnostics.as_ref()?, Tracked(fs))", rule="G1")
-    f.spec("    ensures\n        entry.diagnostics is None ==> r is None && *final(fs) == *old(fs),\n        entry.diagnostics is Some ==> {\n"
-           + READ_POST % ("entry.diagnostics.unwrap()@", "entry.diagnostics.unwrap()@") + "\n        },")
+    f.spec("    ensures\n        entry.diagnostics is None ==> r is None && *final(fs) == *old(fs),\n"
+           "        entry.diagnostics is Some ==> read_post(*old(fs), *final(fs), r, entry.diagnostics.unwrap()@),")
     add(f, "Store::load_diagnostics")
 
     # ---- put / set_diagnostics ---------------------------------------------------------------------------------
